@@ -120,6 +120,7 @@ class World:
         self.steps = 0
         self.wall_budget = wall_budget
         self.stalled = False
+        self.abort = None
 
     @property
     def now(self) -> float:
@@ -177,6 +178,8 @@ class World:
             for l in busy:
                 self._guarded_step(l)
                 n += 1; self.steps += 1
+                if self.abort is not None and self.abort():
+                    raise Stall(self.abort())
                 if self.steps > self.max_steps:
                     raise Stall(f'more than {self.max_steps} loop iterations: livelock at t={self.clock.now}')
 
